@@ -10,10 +10,6 @@ import (
 	"github.com/free5gc/go-upf/internal/report"
 )
 
-const (
-	EVENT_CHANNEL_LEN = 512
-)
-
 type EventType uint8
 
 const (
@@ -38,6 +34,59 @@ type Event struct {
 	period time.Duration
 }
 
+// eventQueue is the server's unbounded FIFO of events.  The PFCP event loop posts
+// timer events from inside its own turn (one per URR it creates or removes) and
+// must never wait for the periodic server: that server may itself be waiting for
+// the PFCP loop to take the reports of a tick, and with a bounded queue the two
+// blocked each other for ever once a turn posted more events than the queue held.
+type eventQueue struct {
+	mu     sync.Mutex
+	cond   *sync.Cond
+	events []Event
+	closed bool
+}
+
+func newEventQueue() *eventQueue {
+	q := &eventQueue{}
+	q.cond = sync.NewCond(&q.mu)
+	return q
+}
+
+// put appends e; it never blocks.  After close it drops e and returns false.
+func (q *eventQueue) put(e Event) bool {
+	q.mu.Lock()
+	defer q.mu.Unlock()
+	if q.closed {
+		return false
+	}
+	q.events = append(q.events, e)
+	q.cond.Signal()
+	return true
+}
+
+// get waits for the next event; false once the queue has been closed.
+func (q *eventQueue) get() (Event, bool) {
+	q.mu.Lock()
+	defer q.mu.Unlock()
+	for len(q.events) == 0 && !q.closed {
+		q.cond.Wait()
+	}
+	if q.closed {
+		return Event{}, false
+	}
+	e := q.events[0]
+	q.events = q.events[1:]
+	return e, true
+}
+
+func (q *eventQueue) close() {
+	q.mu.Lock()
+	q.closed = true
+	q.events = nil
+	q.mu.Unlock()
+	q.cond.Broadcast()
+}
+
 type PERIOGroup struct {
 	urrids map[uint64]map[uint32]struct{}
 	period time.Duration
@@ -45,7 +94,7 @@ type PERIOGroup struct {
 	stopCh chan struct{}
 }
 
-func (pg *PERIOGroup) newTicker(wg *sync.WaitGroup, evtCh chan Event) error {
+func (pg *PERIOGroup) newTicker(wg *sync.WaitGroup, evtQ *eventQueue) error {
 	if pg.ticker != nil {
 		return errors.Errorf("ticker not nil")
 	}
@@ -55,7 +104,7 @@ func (pg *PERIOGroup) newTicker(wg *sync.WaitGroup, evtCh chan Event) error {
 	pg.stopCh = make(chan struct{})
 
 	wg.Add(1)
-	go func(ticker *time.Ticker, period time.Duration, evtCh chan Event) {
+	go func(ticker *time.Ticker, period time.Duration, evtQ *eventQueue) {
 		defer func() {
 			ticker.Stop()
 			wg.Done()
@@ -65,26 +114,19 @@ func (pg *PERIOGroup) newTicker(wg *sync.WaitGroup, evtCh chan Event) error {
 			select {
 			case <-ticker.C:
 				logger.PerioLog.Debugf("ticker[%v] timeout", period)
-				// If the UPF had terminating, the evtCh would be nil
-				if evtCh != nil {
-					// The server may be waiting in stopTicker() instead of
-					// draining evtCh: do not block on a full queue then.
-					select {
-					case evtCh <- Event{
+				// If the UPF had terminating, the evtQ would be nil
+				if evtQ != nil {
+					evtQ.put(Event{
 						eType:  TYPE_PERIO_TIMEOUT,
 						period: period,
-					}:
-					case <-pg.stopCh:
-						logger.PerioLog.Infof("ticker[%v] Stopped", period)
-						return
-					}
+					})
 				}
 			case <-pg.stopCh:
 				logger.PerioLog.Infof("ticker[%v] Stopped", period)
 				return
 			}
 		}
-	}(pg.ticker, pg.period, evtCh)
+	}(pg.ticker, pg.period, evtQ)
 
 	return nil
 }
@@ -96,7 +138,7 @@ func (pg *PERIOGroup) stopTicker() {
 }
 
 type Server struct {
-	evtCh     chan Event
+	evtQ      *eventQueue
 	perioList map[time.Duration]*PERIOGroup // key: period
 
 	handler  report.Handler
@@ -105,7 +147,7 @@ type Server struct {
 
 func OpenServer(wg *sync.WaitGroup) (*Server, error) {
 	s := &Server{
-		evtCh:     make(chan Event, EVENT_CHANNEL_LEN),
+		evtQ:      newEventQueue(),
 		perioList: make(map[time.Duration]*PERIOGroup),
 	}
 
@@ -116,7 +158,7 @@ func OpenServer(wg *sync.WaitGroup) (*Server, error) {
 }
 
 func (s *Server) Close() {
-	s.evtCh <- Event{eType: TYPE_SERVER_CLOSE}
+	s.evtQ.put(Event{eType: TYPE_SERVER_CLOSE})
 }
 
 func (s *Server) Handle(
@@ -131,11 +173,15 @@ func (s *Server) Serve(wg *sync.WaitGroup) {
 	logger.PerioLog.Infof("perio server started")
 	defer func() {
 		logger.PerioLog.Infof("perio server stopped")
-		close(s.evtCh)
+		s.evtQ.close()
 		wg.Done()
 	}()
 
-	for e := range s.evtCh {
+	for {
+		e, ok := s.evtQ.get()
+		if !ok {
+			return
+		}
 		logger.PerioLog.Infof("recv event[%s][%+v]", e.eType, e)
 		switch e.eType {
 		case TYPE_PERIO_ADD:
@@ -146,7 +192,7 @@ func (s *Server) Serve(wg *sync.WaitGroup) {
 					urrids: make(map[uint64]map[uint32]struct{}),
 					period: e.period,
 				}
-				err := perioGroup.newTicker(wg, s.evtCh)
+				err := perioGroup.newTicker(wg, s.evtQ)
 				if err != nil {
 					logger.PerioLog.Errorln(err)
 					continue
@@ -232,18 +278,18 @@ func (s *Server) Serve(wg *sync.WaitGroup) {
 }
 
 func (s *Server) AddPeriodReportTimer(lSeid uint64, urrid uint32, period time.Duration) {
-	s.evtCh <- Event{
+	s.evtQ.put(Event{
 		eType:  TYPE_PERIO_ADD,
 		lSeid:  lSeid,
 		urrid:  urrid,
 		period: period,
-	}
+	})
 }
 
 func (s *Server) DelPeriodReportTimer(lSeid uint64, urrid uint32) {
-	s.evtCh <- Event{
+	s.evtQ.put(Event{
 		eType: TYPE_PERIO_DEL,
 		lSeid: lSeid,
 		urrid: urrid,
-	}
+	})
 }
